@@ -130,6 +130,26 @@ fn c19_full_width_ints() {
     kani::cover!(n == 3 && k == 32);
 }
 
+
+// @ob id=C19 tier=quick req=1 to=1800 mem=24 funcs="DefaultRandomCoin::draw_integers" bounds="requested counts 999..=1002 around the 1000-attempt cap of draw_integers, domain 2^12, identity hasher" sym="nonce (full 64 bits), requested count" desc="draw_integers returns exactly the requested number of integers or an error -- never a shorter vector"
+#[kani::proof]
+#[kani::unwind(1003)]
+#[kani::stub(alloc::fmt::format, nofmt)]
+fn c19_draw_integers_exact_count_at_cap() {
+    let mut coin = DefaultRandomCoin::<IdHash>::new(&[T(1)]);
+    let nonce: u64 = kani::any();
+    let n: usize = kani::any();
+    kani::assume(n >= 999 && n <= 1002);
+    let r = coin.draw_integers(n, 4096, nonce);
+    match &r {
+        Ok(v) => { assert!(v.len() == n); assert!(v[n - 1] < 4096); },
+        Err(_) => { assert!(n > 1000); },
+    }
+    kani::cover!(r.is_ok());
+    kani::cover!(r.is_err());
+    core::mem::forget(r);
+}
+
 // @ob id=C19 tier=quick req=1 to=300 funcs="DefaultRandomCoin::draw_integers" bounds="preconditions: domain not a power of two or count >= domain are refused (documented panic)" sym="domain, count" expect=fail desc="documented precondition panics are reachable (refusal), witness twin"
 #[kani::proof]
 #[kani::unwind(6)]
